@@ -298,7 +298,7 @@ impl Sim {
                 h.last_journal = j.clone();
                 Self::note_journal(h, &j);
                 let valid = s < e && s < h.oracle.len;
-                if valid && out != "ok" { self.fail("clear-failed", format!("clear({s},{e}) on a core of length {} returned {out}", self.h[*name].oracle.len)); }
+                if valid && out != "ok" { let why = match &r { Ok(Err(x)) => format!("{x:?}"), _ => String::new() }; self.fail("clear-failed", format!("clear({s},{e}) on a core of length {} returned {out} {why}", self.h[*name].oracle.len)); }
                 self.bump("op_clear");
                 format!("{out} j={}{ev}", jfmt(&j))
             }
